@@ -145,6 +145,18 @@ char *cmd_pipe(char *cmd, char *ibuf, int oproc)
 	return NULL;
 }
 
+#ifdef NEATVI_VERIF
+/* one byte per executed command on the descriptor named by $NEATVI_VERIF_PROGRESS: lets a monitor tell slow from stuck */
+void neatvi_verif_progress(void)
+{
+	static int fd = -2;
+	if (fd == -2)
+		fd = getenv("NEATVI_VERIF_PROGRESS") ? atoi(getenv("NEATVI_VERIF_PROGRESS")) : -1;
+	if (fd >= 0 && write(fd, ".", 1) < 0)
+		return;
+}
+#endif
+
 int cmd_exec(char *cmd)
 {
 	cmd_pipe(cmd, NULL, 0);
